@@ -143,7 +143,7 @@ class XsdAssert(XsdComponent, ElementPathMixin[Union['XsdAssert', SchemaElementT
         try:
             if not self.token.evaluate(xpath_context):
                 context.validation_error(validation, self, "assertion test is false", obj)
-        except ElementPathError as err:
+        except (ElementPathError, ArithmeticError) as err:
             context.validation_error(validation, self, err, obj)
 
     # For implementing ElementPathMixin
